@@ -111,6 +111,81 @@ def _quiet_without(b, cfg, sb, wb):
     return True
 
 
+CLEARING = ('Vec::<T, A>::clear', 'Vec::<T>::clear', 'String::clear', 'VecDeque::<T, A>::clear')
+
+
+def _uses_of(b, l):
+    """[(block, index, node)] of statements / terminators that mention local l as a place root (definitions of l itself
+    excluded)"""
+    out = []
+    blocks = b.blocks
+    for bi, blk in enumerate(blocks):
+        for k2, s in enumerate(blk['st']):
+            ps = []
+            if s['k'] == 'assign':
+                _places(s['rv'], ps)
+                if s['p']['l'] == l and s['p']['pr']:
+                    ps.append(s['p'])
+            else:
+                _places(s, ps)
+            if any(p.get('l') == l for p in ps):
+                out.append((bi, k2, s))
+        t = blk['t']
+        ps = []
+        _places({k: v for k, v in t.items() if k != 'dest'}, ps)
+        if any(p.get('l') == l for p in ps):
+            out.append((bi, len(blk['st']), t))
+    return out
+
+
+def emptied_first(ctx, b, l, depth=0):
+    """the collection held by (or referred to by) local l is emptied before anything else is done with it: its first use
+    — the one that dominates all others — is a clear(), a move/re-borrow into a local for which the same holds, a
+    mem::take whose result is treated so, or a call to a local function whose parameter is treated so.  What such a
+    buffer carried over from an earlier call is then never observed (its capacity is not observable)."""
+    if depth > 5:
+        return False
+    an = ctx.an(b)
+    cfg = an.cfg
+    uses = [(bi, i, n) for bi, i, n in _uses_of(b, l) if bi in cfg.reach]
+    # drops and storage markers are not uses
+    uses = [(bi, i, n) for bi, i, n in uses if not (isinstance(n, dict) and n.get('k') in ('drop', 'storage_dead', 'storage_live'))]
+    if not uses:
+        return True
+    first = None
+    for cand in sorted(uses, key=lambda u: (u[0], u[1])):
+        if all((cand[0] == u[0] and cand[1] <= u[1]) or (cand[0] != u[0] and cfg.dominates(cand[0], u[0])) for u in uses):
+            first = cand
+            break
+    if first is None:
+        return False
+    bi, i, n = first
+    if n.get('k') == 'assign':
+        rv = n['rv']
+        tgt = n['p']
+        if tgt['pr']:
+            return False
+        if rv.get('k') == 'use' and rv['o'].get('k') in ('move', 'copy') and rv['o']['p']['l'] == l and not rv['o']['p']['pr']:
+            return emptied_first(ctx, b, tgt['l'], depth + 1)
+        if rv.get('k') == 'ref' and rv['p']['l'] == l and [e.get('k') for e in rv['p']['pr']] in ([], ['deref']):
+            return emptied_first(ctx, b, tgt['l'], depth + 1)
+        return False
+    if n.get('k') == 'call':
+        c = ((n.get('f') or {}).get('fn') or {}).get('def') or ''
+        pos = [k for k, a in enumerate(n.get('args') or []) if a.get('p', {}).get('l') == l and not a['p']['pr']]
+        if len(pos) != 1:
+            return False
+        if any(c.endswith(x) for x in CLEARING):
+            return True
+        if c.endswith('mem::take') or c.endswith('mem::replace'):
+            d = n.get('dest')
+            return d is not None and not d['pr'] and emptied_first(ctx, b, d['l'], depth + 1)
+        cb = ctx.F.body(c)
+        if cb is not None and pos[0] + 1 <= cb.argc:
+            return emptied_first(ctx, cb, pos[0] + 1, depth + 1)
+    return False
+
+
 class MethodFacts:
     """per method: [(kind, field, bb, idx)] with kind in write (whole field stored), part (store below it / &mut
     borrow / call destination: mutation that also depends on the old value), read"""
@@ -197,6 +272,7 @@ def r10_6(ctx):
         key = 'draw_target::DrawTarget.%s' % F
         # cross-call reads: a read not dominated by a whole write of F in the same method
         cross = []
+        scratch = 0
         for q, b in methods.items():
             if q.split('::')[-1] in CONSTRUCTORS:
                 continue
@@ -211,9 +287,14 @@ def r10_6(ctx):
             for k, f, bi, i in mf[q].of(F, ('read', 'part')):
                 dominated = any((wb == bi and wi < i) or (wb != bi and an.cfg.dominates(wb, bi)) for _k, _f, wb, wi in ws)
                 if not dominated:
+                    # a buffer that is handed on and emptied before anything else looks at it carries nothing over
+                    st = b.blocks[bi]['st'][i] if i < len(b.blocks[bi]['st']) else None
+                    if st is not None and st['k'] == 'assign' and not st['p']['pr'] and st['rv'].get('k') in ('ref', 'use') and emptied_first(ctx, b, st['p']['l']):
+                        scratch += 1
+                        continue
                     cross.append((q, bi))
         if not cross:
-            ctx.ok(R, key + '|no memory', '-', 'new field %s is never read before the same call wrote it' % F)
+            ctx.ok(R, key + '|no memory', '-', 'new field %s is never read before the same call wrote it%s' % (F, ' (%d hand-overs of a buffer that is emptied first)' % scratch if scratch else ''))
             continue
         # which methods write F (directly, or through a local method they call)
         direct_w = set(q for q in methods if mf[q].of(F, ('write', 'part')))
